@@ -258,6 +258,14 @@ CORPUS = [
 ]
 
 
+def load_corpus():
+    """corpus/C05/*.json (witnesses of the defects found, replayed first); the inline list is the fallback"""
+    d = core.CORPUS_DIR / PROP
+    files = sorted(d.glob('*.json')) if d.exists() else []
+    loaded = [json.loads(f.read_text()) for f in files]
+    return loaded + [c for c in CORPUS if c not in loaded]
+
+
 def cases_for(ctx, tag, n):
     rng = ctx.sub_rng(tag)
     return [gen_case(rng) for _ in range(n)]
@@ -341,6 +349,8 @@ def diff_model(r, m):
             return None if out['error'] == m['error'] else ('error-class', f'impl {out["error"]} model {m["error"]}')
         return ('model-error', str(m['error']))
     if 'error' in out:
+        if op == 'speigs' and out['error'].startswith('Arpack'):
+            return None   # the sparse solver gave up (trusted base), nothing to compare
         return ('impl-error', f'impl raised {out["error"]} ({out.get("msg")}), model returned a value')
     calls = rec['calls']
     ident = lambda b: b
@@ -440,6 +450,45 @@ def nan_eq(a, b, rtol=0.0):
     return a == b
 
 
+def maxabs(x):
+    if isinstance(x, list):
+        return max([maxabs(y) for y in x] + [0.0])
+    return abs(x) if isinstance(x, float) and not math.isnan(x) else 0.0
+
+
+def out_eq(a, b, rtol):
+    """outputs of the two kernel configurations: exact, except (rtol > 0: results of a tensordot) dense entries,
+    which are compared relative to the largest entry of the matrix"""
+    if not rtol:
+        return nan_eq(a, b)
+    if isinstance(a, dict) and isinstance(b, dict) and a.keys() == b.keys():
+        for k in a:
+            if k == 'dense' and isinstance(a[k], list) and isinstance(b[k], list):
+                scale = max(1.0, maxabs(a[k]))
+                if not nan_eq(a[k], b[k], 0.0) and not dense_close(a[k], b[k], rtol * scale):
+                    return False
+            elif not out_eq(a[k], b[k], rtol):
+                return False
+        return True
+    if isinstance(a, list) and isinstance(b, list) and len(a) == len(b) and all(isinstance(x, dict) for x in a):
+        return all(out_eq(x, y, rtol) for x, y in zip(a, b))
+    return nan_eq(a, b, rtol)
+
+
+def is_num(x):
+    return isinstance(x, float) or (isinstance(x, list) and len(x) == 2 and all(isinstance(y, float) for y in x))
+
+
+def dense_close(a, b, atol):
+    if is_num(a) and is_num(b) and not (isinstance(a, list) and isinstance(b, list) and False):
+        pa = a if isinstance(a, list) else [a, 0.0]
+        pb = b if isinstance(b, list) else [b, 0.0]
+        return all((math.isnan(x) and math.isnan(y)) or abs(x - y) <= atol for x, y in zip(pa, pb))
+    if isinstance(a, list) and isinstance(b, list):
+        return len(a) == len(b) and all(dense_close(x, y, atol) for x, y in zip(a, b))
+    return a == b
+
+
 def nontrivial(r):
     a = r['in']['a']
     return len(a['legs'][0]['mods']) >= 1 and (len(a['qdata']) >= 2 or bool(r['rec']['blocked'] and r['rec']['blocked']['axes']))
@@ -484,6 +533,9 @@ def evaluate(ctx, cases, use_model=True, configs=('cy', 'py')):
             res.count('error=' + r['out']['error'])
         for sig, detail in r['oracle']:
             res.fail('property', sig, f'[{ref_cfg}] {detail}', case)
+        # known finding c05.qr.complete-with-cutoff: blocks that do not fit the legs are copied from uninitialised
+        # memory by split_legs -- the result is not even deterministic; only the oracle is applied to these calls
+        undefined = op in ('qr', 'lq') and o['mode'] == 'complete' and o['cutoff'] is not None
         for cfg in configs[1:]:
             ot = runs[cfg]['results'][i]
             if 'crash' in ot:
@@ -492,11 +544,17 @@ def evaluate(ctx, cases, use_model=True, configs=('cy', 'py')):
             for sig, detail in ot.get('oracle', []):
                 if sig not in [x[0] for x in r['oracle']]:
                     res.fail('property', sig, f'[{cfg}] {detail}', case)
-            if r['oracle'] and ot.get('in') == r['in']:
+            if (r['oracle'] or undefined) and ot.get('in') == r['in']:
                 continue   # already reported as a property failure; error classes may differ between the kernels
-            rtol = 1.0e-12 if op in ('pinv', 'polar') else 0.0
-            if not nan_eq(ot.get('out'), r['out'], rtol) or ot.get('in') != r['in'] or not nan_eq(ot.get('rec'), r['rec']):
-                k = first_diff(r.get('out'), ot.get('out')) if not nan_eq(ot.get('out'), r['out'], rtol) else \
+            if op == 'speigs':
+                # ARPACK starts from a random vector: eigenvectors differ by a phase from run to run
+                same_out = ('error' in ot.get('out', {})) == ('error' in r['out']) and ot.get('in') == r['in']
+                if not same_out:
+                    res.fail('correspondence', 'c05.kernels-differ', f'{ref_cfg} vs {cfg}: speigs error status', case)
+                continue
+            rtol = 1.0e-10 if op in ('pinv', 'polar') else 0.0
+            if not out_eq(ot.get('out'), r['out'], rtol) or ot.get('in') != r['in'] or not nan_eq(ot.get('rec'), r['rec']):
+                k = first_diff(r.get('out'), ot.get('out')) if not out_eq(ot.get('out'), r['out'], rtol) else \
                     first_diff(r.get('rec'), ot.get('rec'), 'rec')
                 res.fail('correspondence', 'c05.kernels-differ', f'{ref_cfg} vs {cfg} at {k}', case)
         if use_model and i in models:
@@ -506,15 +564,15 @@ def evaluate(ctx, cases, use_model=True, configs=('cy', 'py')):
                 d = diff_model(r, m)
             except (KeyError, IndexError, ValueError, TypeError) as e:
                 d = ('diff-crash', f'{type(e).__name__}: {e}')
-            if d and not r['oracle']:
+            if d and not r['oracle'] and not undefined:
                 res.fail('correspondence', f'c05.model-vs-impl.{op}.' + d[0], d[1], case)
     return res
 
 
 def run(ctx):
     res = core.Result()
-    n = 1500 if ctx.quick else 30000
-    cases = list(CORPUS) + cases_for(ctx, 'main', n)
+    n = 2400 if ctx.quick else 30000
+    cases = load_corpus() + cases_for(ctx, 'main', n)
     if ctx.quick:
         res.merge(evaluate(ctx, cases))
     else:
@@ -524,7 +582,7 @@ def run(ctx):
 
 
 def search(ctx, reasons):
-    cases = list(CORPUS) + cases_for(ctx, 'search', 1500 if ctx.quick else 20000)
+    cases = load_corpus() + cases_for(ctx, 'search', 1500 if ctx.quick else 20000)
     return evaluate(ctx, cases, use_model=False)
 
 
